@@ -268,4 +268,60 @@ Definition call_entry (f : entry) (envm : envlist) (cmd : string) (args : list s
   | FOutputWith => OutputWith envm cmd args
   | FExec so se => exec_ envm so se cmd args
   end.
+(* ---------------------------------------------------------------- Exec with writers that fail
+   A conservative extension (nothing above changes): Exec handed caller-supplied io.Writers whose
+   Write fails after n bytes.  os/exec copies a non-file writer's stream through a pipe in a
+   goroutine (io.Copy); Cmd.Wait reports the process's own outcome first and the copy error only
+   if that is nil.  [exec_x] is the same transcription of Exec/run as [exec_], with that error. *)
+Inductive xwriter :=
+| XW (w : writer)                 (* one of the writers above; never fails *)
+| XFail (n : nat).                (* accepts n bytes, then every Write fails *)
+
+(* the plain destination of an xwriter (a failing one is none of the caller's standard streams) *)
+Definition xbase (w : xwriter) : writer := match w with XW w => w | XFail _ => WNil end.
+
+(* bytes a caller-supplied writer has accepted when the stream is wired to it *)
+Definition accepted (w : xwriter) (data : string) : string :=
+  match w with
+  | XW w => reaches WBuf w data
+  | XFail n => str_of (firstn n (chars data))
+  end.
+(* io.Copy into the writer reports an error: a Write is attempted only if there is data *)
+Definition write_fails (w : xwriter) (data : string) : bool :=
+  match w with
+  | XFail n => Nat.ltb n (String.length data)
+  | XW _ => false
+  end.
+(* the error of Cmd.Run: the process's own outcome first; a copy error only if that is nil *)
+Definition run_err (r : child_result) (copy_err : bool) : err :=
+  match cmd_run_err r with
+  | ENil => if copy_err then EOther else ENil
+  | e => e
+  end.
+
+Definition run_x (envm : envlist) (stdout stderr : xwriter) (cmd : string) (args : list string)
+  : bool * Z * err * (list string * list string * child_result) :=
+  let c_env := environ penv ++ map entry_str envm in
+  let argv := cmd :: args in
+  let envp := dedup_env c_env in
+  let r := child argv envp in
+  let e := run_err r (write_fails stdout (child_out r) || write_fails stderr (child_err r)) in
+  (sh_CmdRan e, sh_ExitStatus e, e, (argv, envp, r)).
+
+Definition exec_x (envm : envlist) (stdout stderr : xwriter) (cmd : string) (args : list string) : call :=
+  let expand_ := expand (exec_mapping envm) in
+  let cmd := expand_ cmd in
+  let args := map expand_ args in
+  let '(ran, code, e, (argv, envp, r)) := run_x envm stdout stderr cmd args in
+  let '(ran', e') :=
+    match e with
+    | ENil => (true, ENil)
+    | _ => if ran then (ran, EFatal code) else (ran, EOther)
+    end in
+  {| k_ran := ran'; k_err := e'; k_text := EmptyString;
+     k_argv := argv; k_envp := envp; k_stdin := OsStdin; k_child := r;
+     k_os_stdout := String.append (reaches WOsStdout (xbase stdout) (child_out r)) (reaches WOsStdout (xbase stderr) (child_err r));
+     k_os_stderr := String.append (reaches WOsStderr (xbase stdout) (child_out r)) (reaches WOsStderr (xbase stderr) (child_err r));
+     k_buf_out := accepted stdout (child_out r);
+     k_buf_err := accepted stderr (child_err r) |}.
 End World.
